@@ -35,7 +35,7 @@ CHECKS = {
                 note=E1_NOTE + "; E2 part trusts the translator (validated per run), the queue/map/lock/event models and z3"),
     "C09": dict(cat="model_checking", ref="DESIGN.md §2 E2, §4 C09", engine="E2-py2ts-bmc",
                 technique="bounded model checking in z3 of control-flow automata compiled from the real WorkerPool/Reply methods, schedule = symbolic thread choice per step; counterexamples replayed on the real classes",
-                text="Bounded model checking over all schedules of small scenarios (spawn vs shutdown vs primary thread, results, time-outs, late spawn) for pools with/without primary thread and both thread backends; unwinding assertion and witness per scenario.",
+                text="Bounded model checking over all schedules of small scenarios (spawn vs shutdown vs primary thread, results, time-outs, late spawn, two tasks from one user thread with waitall and terminate) for pools with/without primary thread and both thread backends; unwinding assertion and witness per scenario; quick tier: two larger two-task scenarios as bug hunting (violation query only).",
                 note="trusted: the AST->CFA translator (vlib/py2ts.py; validated per run by replaying simulator schedules on the real classes), the hand-written models of Lock/Event/set/list/thread start and of the task bodies, sequential consistency per visible operation, z3; bounds as stated in the evidence"),
     "C14": dict(cat="model_checking", ref="DESIGN.md §2 E2, §4 C14", engine="E2-py2ts-bmc",
                 technique="bounded model checking in z3 of control-flow automata compiled from the real WorkerGateway._local_schedulexec/executetask/serve and WorkerPool methods over histories of body outcomes; counterexamples replayed on the real classes",
@@ -61,7 +61,7 @@ CHECKS = {
                 text="Bounded symbolic check of tree equality after send (kind, content, permission bits, file mtime), delete/no-delete semantics and the no-op re-sync, for single-file and small-tree skeletons with symbolic attributes and prior target states.",
                 note=E1_NOTE + "; the file system is an in-memory model, RSync.send()'s dispatch loop is replaced by an equivalent dispatcher over the same real methods; relative links/cwd, unusual names and real file systems are outside"),
     "C16": dict(cat="other", ref="DESIGN.md §4 C16 (reduced scope)", technique="CrossHair symbolic execution of the real ProxyIO and the real serve_proxy_io forwarding loop / control dispatcher against the byte-stream contract (catalogue messages from the sub, symbolic bytes from the master, symbolic control code and chunking)",
-                text="Bounded symbolic check of the proxied transport's adapter contract (bytes unmodified and in order in both directions, control requests reach the matching sub-IO operation with exactly one reply). 'Identical transcripts of arbitrary channel programs on real transports' is a whole-system statement and is not decided; pipe/socket adapters are covered by C08.",
+                text="Bounded symbolic check of the proxied transport's adapter contract (bytes unmodified and in order in both directions, the master's real wait/kill/close_write/remoteaddress reach the matching sub-IO operation with exactly one reply and leave the stream readable), plus socket<->pipe cross round trips under symbolic chunking. 'Identical transcripts of arbitrary channel programs on real transports' is a whole-system statement and is not decided; pipe/socket adapters are covered by C08.",
                 note=E1_NOTE + "; whole-system transcripts on real popen/socket/via gateways x exec models are outside"),
 }
 
